@@ -506,3 +506,5 @@ def run(chk, tier):
     chk.guard('C14.g', lambda: rule_charconst(chk, prog, tier))
     from props import c16
     chk.guard('C16.c', lambda: c16.rule_stringkey(chk, prog, tier))      # two literals are the same object only if all their code units agree: the pool key covers every byte
+    from props import c12
+    chk.guard('C12.e', lambda: c12.rule_expansion(chk, prog, tier))      # literals made by the # operator: the spelling of a character constant or string literal argument (backslashes, quotes) is what decodechar later reads
